@@ -4,6 +4,7 @@ package rigs
 
 import (
 	"crypto/sha1"
+	"crypto/tls"
 	"encoding/base64"
 	"fmt"
 	"io"
@@ -32,6 +33,7 @@ import (
 // Kernel truth for sockets comes from /proc.
 
 type lfSite struct {
+	https               bool
 	host, marker, token string
 	auth                bool
 	user, pass          string
@@ -101,6 +103,10 @@ func (r *lfRig) genCfg(fail string) *lfCfg {
 	for i := 0; i < n; i++ {
 		s := lfSite{host: fmt.Sprintf("s%d.test", i+1), marker: fmt.Sprintf("%s-m%d", cfg.label, i), token: fmt.Sprintf("TOKEN-%s-%d-%d", cfg.label, i, r.c.T.Seed%100000), bind: bind}
 		s.auth = st.Draw(2) == 0
+		s.https = i == 0 && st.Draw(4) == 0 // all sites of a config share one listener: TLS for all or none
+		if i > 0 {
+			s.https = cfg.sites[0].https
+		}
 		if s.auth {
 			s.user, s.pass = fmt.Sprintf("u%d", i), fmt.Sprintf("p%s%d", cfg.label, i)
 		}
@@ -113,7 +119,14 @@ func (r *lfRig) genCfg(fail string) *lfCfg {
 		root := filepath.Join(r.tmp, cfg.label, fmt.Sprintf("site%d", i))
 		os.MkdirAll(root, 0755)
 		os.WriteFile(filepath.Join(root, "index.html"), []byte("<html>"+s.token+"</html>\n"), 0644)
-		fmt.Fprintf(&b, "http://%s:0 {\n\tbind %s\n\troot %s\n\theader / X-Cfg %s\n", s.host, s.bind, root, s.marker)
+		scheme := "http"
+		if s.https {
+			scheme = "https"
+		}
+		fmt.Fprintf(&b, "%s://%s:0 {\n\tbind %s\n\troot %s\n\theader / X-Cfg %s\n", scheme, s.host, s.bind, root, s.marker)
+		if s.https {
+			b.WriteString("\ttls self_signed {\n\t\tno_redirect\n\t}\n")
+		}
 		if i == 0 {
 			fmt.Fprintf(&b, "\tsimcb %s\n", cfg.label)
 			fmt.Fprintf(&b, "\tlog / %s \"{status} {uri}\" {\n\t\trotate_disable\n\t}\n", filepath.Join(r.tmp, cfg.label, "access.log"))
@@ -249,12 +262,16 @@ func hookNames() []string {
 }
 
 func (r *lfRig) get(addr net.Addr, s lfSite, withAuth bool) (int, string, string, error) {
-	req, _ := http.NewRequest("GET", "http://"+addr.String()+"/", nil)
+	scheme := "http"
+	if s.https {
+		scheme = "https"
+	}
+	req, _ := http.NewRequest("GET", scheme+"://"+addr.String()+"/", nil)
 	req.Host = s.host
 	if withAuth {
 		req.SetBasicAuth(s.user, s.pass)
 	}
-	tr := &http.Transport{DisableKeepAlives: true}
+	tr := &http.Transport{DisableKeepAlives: true, TLSClientConfig: &tls.Config{InsecureSkipVerify: true, ServerName: s.host}}
 	cl := &http.Client{Transport: tr, Timeout: 10 * time.Second, CheckRedirect: func(*http.Request, []*http.Request) error { return http.ErrUseLastResponse }}
 	resp, err := cl.Do(req)
 	if err != nil {
